@@ -115,6 +115,7 @@ def tree_schema():
     s['Variable']['parent'] = 'ref:Namespace|ref:Class'
     for c in ('Method', 'StaticMethod', 'Constructor', 'Operator', 'DunderMethod'):
         s[c]['parent'] = 'ref:Class'
+    s['InstantiatedClass']['parent_class'] = 'estr|ref:Typename'   # instantiate_parent_class returns the typename
     s['MatlabWrapper']['ignore_classes'] = 'list[str]|tuple[str]'
     s['MatlabWrapper']['content'] = 'list[any]'
     return s
@@ -127,5 +128,5 @@ _PLAIN = 'forall(0, len(self.instantiations), lambda j: wf_tn_plain(self.instant
 TREE_INVARIANTS = {
     'InstantiatedGlobalFunction': [_PLAIN], 'InstantiatedClass': [_PLAIN], 'InstantiatedMethod': [_PLAIN],
     'InstantiatedStaticMethod': [_PLAIN], 'InstantiatedConstructor': [_PLAIN], 'InstantiatedDeclaration': [_PLAIN],
-    'Type': ['wf_ty(self)'], 'TemplatedType': ['wf_ty(self)'],
+    'Type': ['wf_ty(self)'], 'TemplatedType': ['wf_ty(self)'], 'Typename': ['wf_tn(self)'],
 }
